@@ -12,6 +12,7 @@ RULE = ("cases = dataset (D7, D9, D10 first: sparse rankings missing a whole com
         ">= 3 groups in the partition or a component of size >= 3 solved; distinct = digest of (dataset, scheme, config)")
 ASSUMPTIONS = ["reference model vf/ref.py", "CPLEX branch observed through the generic stand-in only", "dyadic penalties"]
 SUMMARY_KEYS = ["partitions", "parcons_runs", "exact_component_runs", "aux_component_runs", "flag_true", "flag_false"]
+THOROUGH_SCALE = 4
 CRASH_IS_VIOLATION = False
 TIMEOUT = {"quick": 900, "thorough": 7200}
 AUX = ["BioConsert", "KwikSort", "Copeland", "BioCo"]
